@@ -130,7 +130,7 @@ def replay(chk, exe, hists, c, pid, *, units=(1,), ticks=(1000,), tcp=0, label="
     for unit in units:
         for tick in ticks:
             dc = drv_cfg(c, unit=unit, tick_ns=tick, tcp=tcp)
-            outs = vkit.run_driver(exe, [{"cfg": dc, "h": h} for h in hists])
+            outs = vkit.run_driver(exe, [{"cfg": dc, "h": for_driver(h)} for h in hists])
             fails = vkit.compare_histories(exp, adapt_actual(outs, pid))
             chk.cov["traces_validated_against_impl"] += len(hists)
             for (i, k, msg) in fails[:limit_fail]:
@@ -164,6 +164,17 @@ def op_histogram(hists):
 
 def nontrivial(h):
     return sum(1 for s in h if s["a"] not in ("script",)) >= 2 and any(s["o"].get("cb") for s in h)
+
+
+def for_driver(h):
+    """The driver only needs the ops (plus, for TCP, the expected bytes on the wire to wait for delivery)."""
+    out = []
+    for s in h:
+        d = {k: v for k, v in s.items() if k not in ("o", "kf")}
+        if "o" in s and "ep" in s["o"]:
+            d["o"] = {"ep": [{"w": x.get("w", 0)} if isinstance(x, dict) else {} for x in s["o"]["ep"]]}
+        out.append(d)
+    return out
 
 
 def strip_all(h):
@@ -215,7 +226,7 @@ def standard_run(pid, tier, seed, plan):
                 sel = [h for h in kn if h[-1]["kf"] == bit][:g.get("take", 8)]
                 if not sel:
                     raise vkit.InfraError("no canonical scenario generated for known finding %s" % key)
-                outs = vkit.run_driver(exe, [{"cfg": dc, "h": h} for h in sel])
+                outs = vkit.run_driver(exe, [{"cfg": dc, "h": for_driver(h)} for h in sel])
                 fails = vkit.compare_histories(project_all(sel, pid), adapt_actual(outs, pid))
                 for (i, k, msg) in fails[:2]:
                     chk.violation("%s scenario %d step %d: %s" % (key, i, k, msg),
@@ -226,6 +237,8 @@ def standard_run(pid, tier, seed, plan):
                                                                          "monitor_flagged": nm}
             if not hs:
                 raise vkit.InfraError("generator %s produced no general histories" % g["name"])
+        if g.get("sample", 1) > 1:       # replay every k-th history of a large exhaustive family
+            hs = hs[::g["sample"]]
         for h in hs:
             chk.count_case(strip_all(h), nontrivial(h))
         for h in hs[-1:]:
@@ -236,7 +249,7 @@ def standard_run(pid, tier, seed, plan):
         for unit in g.get("units", (1,)):
             for tick in g.get("ticks", (1000,)):
                 dc = drv_cfg(g["consts"], unit=unit, tick_ns=tick, tcp=g.get("tcp", 0))
-                outs = vkit.run_driver(exe, [{"cfg": dc, "h": h} for h in hs])
+                outs = vkit.run_driver(exe, [{"cfg": dc, "h": for_driver(h)} for h in hs])
                 fails = vkit.compare_histories(exp, adapt_actual(outs, pid))
                 chk.cov["traces_validated_against_impl"] += len(hs)
                 for (i, k, msg) in fails[:4]:
@@ -256,7 +269,7 @@ def standard_run(pid, tier, seed, plan):
         if not hs:
             raise vkit.InfraError("no canonical scenario generated for known finding %s" % kf["key"])
         dc = drv_cfg(kf["consts"])
-        outs = vkit.run_driver(exe, [{"cfg": dc, "h": h} for h in hs])
+        outs = vkit.run_driver(exe, [{"cfg": dc, "h": for_driver(h)} for h in hs])
         fails = vkit.compare_histories(project_all(hs, pid), adapt_actual(outs, pid))
         for (i, k, msg) in fails[:2]:
             chk.violation("%s scenario %d step %d: %s" % (kf["name"], i, k, msg),
